@@ -591,3 +591,26 @@ package utreexo
 //@ func (m *MapPollard) highestPos() (res uint64)
 //@   pure
 //@   lock: R
+
+// C15: the eviction loop of GenerateCachingSchedule never holds more than maxMemory leaves in its cache, and every
+// index it uses (the cache, the per-block schedule, the creation block read back from createHeights) is in range.
+// genTTLs' own body (undoing every block's additions and deletions on the recorded positions) is outside the VC
+// subset: its contract is assumed here and covered by the bounded tier.
+
+//@ func (cs *CachingScheduleTracker) genTTLs()
+//@   trusted
+//@   ensures len(cs.ttls) == len(cs.numAdds) && len(cs.numAdds) == old(len(cs.numAdds))
+
+//@ func (cs *CachingScheduleTracker) GenerateCachingSchedule(maxMemory int) (res [][]uint64)
+//@   requires maxMemory >= 0
+//@   ensures len(res) == len(cs.numAdds)
+//@   loop 1: assume 0 <= cacheSize
+//@   loop 2: invariant len(cache) <= maxMemory && len(cachingSch) == len(cs.ttls)
+//@   loop 2: invariant len(cachingSch) > 0 ==> forall k in all: 0 <= createHeights[k] && createHeights[k] < len(cachingSch)
+//@   loop 3: invariant 0 <= j && j <= len(cache) && len(cache) <= maxMemory && len(cachingSch) == len(cs.ttls)
+//@   loop 3: invariant forall k in all: 0 <= createHeights[k] && createHeights[k] < len(cachingSch)
+//@   loop 3: decreases len(cache) - j
+//@   loop 4: invariant len(cache) <= maxMemory && len(cachingSch) == len(cs.ttls)
+//@   loop 4: invariant forall k in all: 0 <= createHeights[k] && createHeights[k] < len(cachingSch)
+//@   loop 5: invariant len(cache) == iterlen_5 && len(cache) <= maxMemory
+//@   loop 5: invariant forall k in all: 0 <= createHeights[k] && createHeights[k] < len(cachingSch)
